@@ -269,7 +269,7 @@ ADDED7 = {
  "C14": "Round 12: model __call__ methods name the extra arguments they use -- CombinedModel counts co_argcount (C14.g).",
  "C16": "Round 12: a reset at inner iteration 0 that also depends on the history left by earlier calls is a named contradiction (C16.d).",
  "C17": "Round 12: an in-place product on the copy keeps the array's dtype -- differs from raw-array arithmetic (C17.d).",
- "C18": "Round 12: every configuring method (not only the constructor) is a source of configuration that load must restore (C18.d).",
+ "C18": "Round 12: every configuring method (not only the constructor) is a source of configuration that load must restore (C18.d); pickling of the typed point classes rebuilds an object of the same class (C18.i).",
  "C20": "Round 12 (level other): every call of the layout helpers passes the dimension of the array (C20.b).",
 }
 GENERIC2 = " For every property: no default-argument object is modified in place, and optional parameters (default None) of the anchored modules are compared with None, never tested by truth value."
